@@ -105,6 +105,39 @@ func (c06) Run(t *tape.Tape, st *Stats) *Violation {
 	}
 	tr := f.Truth
 	data := f.Bytes()
+	// multi-step history: in a third of the runs earlier loads of the same run
+	// are kept and their profile bytes re-verified after every later load
+	// (a result must not change once it has been returned)
+	type held struct {
+		desc string
+		got  []byte
+		want []byte
+	}
+	var history []held
+	if t.Chance(1, 3) {
+		n := 1 + t.Intn(2)
+		for i := 0; i < n; i++ {
+			var pf *refmodel.File
+			switch t.Intn(3) {
+			case 0:
+				pf = refmodel.BuildPNG(refmodel.DrawPNG(t, 1, []int{1, 300, 3000, 5000}, false))
+			case 1:
+				pf = refmodel.BuildJPEG(refmodel.DrawJPEG(t, 1, []int{1, 300, 3000, 5000}, false, nil))
+			default:
+				pf = refmodel.BuildWebP(refmodel.DrawWebP(t, 2, 1, []int{1, 300, 3000, 5000}, false))
+			}
+			l := SpecificLoader(pf.Truth.Format)
+			if t.Bool() {
+				l = LoaderAuto
+			}
+			r := SafeLoad(l, simio.NewSource(simio.Bytes(pf.Bytes()), simio.Config{TruncAt: -1, ErrAt: -1}))
+			if r.Panic == nil && r.Err == nil && r.MD != nil {
+				if d, e := r.MD.ICCProfileData(); e == nil && d != nil && pf.Truth.ICCState == refmodel.ICCPresent {
+					history = append(history, held{pf.Truth.Desc + " via " + l.Name, d, pf.Truth.ICC})
+				}
+			}
+		}
+	}
 	loader := SpecificLoader(tr.Format)
 	if t.Pick(2, 1) == 1 {
 		loader = LoaderAuto
@@ -141,6 +174,14 @@ func (c06) Run(t *tape.Tape, st *Stats) *Violation {
 	}
 	if res.Panic != nil {
 		return fail("panic", fmt.Sprintf("Load panicked: %v", res.Panic))
+	}
+	st.Probe("multi_load_sequence", len(history) > 0)
+	for i, h := range history {
+		if !bytes.Equal(h.got, h.want) {
+			v := fail("bytes-changed-after-later-load", fmt.Sprintf("profile returned by earlier load #%d of this run (%s) was correct when returned but differs after later loads: first difference at %d of %d bytes", i+1, trunc(h.desc, 120), firstDiff(h.got, h.want), len(h.want)))
+			v.Sig = "history:bytes-changed-after-later-load"
+			return v
+		}
 	}
 	basicOK := v.OK && v.Format == tr.Format && v.W == tr.W && v.H == tr.H && v.Bits == tr.Bits
 	switch tr.ICCState {
